@@ -196,7 +196,8 @@ def run_shard(prop, spec, tier, seed, shard, nshards, scratch):
     res = {"cases": 0, "violations": [], "known": [], "samples": [], "nontrivial": [], "notes": [], "inconclusive": []}
     un = B.unclassified_public_methods()
     if un:
-        res["inconclusive"].append("public Traph methods neither in the read-only nor in the writer list: %s" % un)
+        # new API: reported, not judged (the battery cannot know whether it is meant to write)
+        res["notes"].append("public Traph methods neither in the read-only nor in the writer list (not exercised by the battery): %s" % un)
     deadline = time.time() + tp.get("time_cap", 600)
     saved = 0
     for idx in range(tp["cases"]):
